@@ -184,6 +184,8 @@ func (b *B) TypeDeclNode(t *Type, f *File) *Node {
 	fld("MS", "[]int")
 	fld("P, Q", "int") // two names in one field declaration: one doc comment covers both
 	fld("In", "Inner"+t.Name)
+	// an embedded plain struct: its fields EX / ES are promoted and act like fields of t
+	n.Kids = append(n.Kids, &Node{Pre: []*Line{b.line("Emb" + t.Name)}})
 	n.Post = []*Line{b.line("}")}
 	if t.Grouped == 3 {
 		n.Post = []*Line{b.line("})")}
@@ -392,6 +394,16 @@ func immTemplates() []Tmpl {
 	// a struct-typed field: replacing it is a write to T, writing INTO it is a write to the (unannotated) inner type
 	ts = append(ts, simple("inner-struct-field-write", URead, "In", func(x string) string { return x + ".In.Z = 1" }, false, ""))
 	ts = append(ts, simple("inner-struct-field-inc", URead, "In", func(x string) string { return x + ".In.Z++" }, false, ""))
+	// fields promoted from an embedded PLAIN struct act like fields of the (annotated) outer type;
+	// spelled through the embedded field's name the write goes into the plain inner value
+	ts = append(ts, simple("promoted-from-plain-assign", UFieldAssign, "EX", func(x string) string { return x + ".EX = 1" }, false, "promoted-from-plain-embedded"))
+	ts = append(ts, simple("promoted-from-plain-op", UFieldOpAssign, "EX", func(x string) string { return x + ".EX |= 2" }, false, "promoted-from-plain-embedded"))
+	ts = append(ts, simple("promoted-from-plain-inc", UFieldIncDec, "EX", func(x string) string { return x + ".EX--" }, false, "promoted-from-plain-embedded"))
+	ts = append(ts, simple("promoted-from-plain-idx", UFieldIndexAssign, "ES", func(x string) string { return x + ".ES[0] = 3" }, false, "promoted-from-plain-embedded"))
+	ts = append(ts, Tmpl{Name: "explicit-plain-embedded-write", Cat: IMM, Kind: "struct", NoImp: true, Make: func(b *B, t *Type, env *Env) []*Node {
+		x, a := acquire(b, t, env)
+		return []*Node{a, b.stmt(x+".Emb"+t.Name+".EX = 4", useT(URead, t, "EX")), b.stmt("_ = " + x)}
+	}})
 	// parenthesised operand, address-of
 	ts = append(ts, simple("assign-paren-operand", UFieldAssign, "F", func(x string) string { return "(" + x + ").F = 1" }, false, ""))
 	ts = append(ts, Tmpl{Name: "assign-addr-of-value", Cat: IMM, Kind: "struct", NoImp: true, Make: func(b *B, t *Type, env *Env) []*Node {
